@@ -42,10 +42,11 @@ Proof.
 Qed.
 
 Lemma parse_req_refused_codes root r c :
-  parse_req root r = ARefused c -> c = 400%N \/ c = 405%N \/ c = 415%N.
+  parse_req root r = ARefused c -> c = 400%N \/ c = 405%N \/ c = 415%N \/ c = 403%N.
 Proof.
   unfold parse_req.
-  destruct (negb (known_method (meth r))); [intros H; inversion H; auto|].
+  destruct (negb (known_method (meth r))).
+  { unfold unsupported_code. destruct (String.eqb (meth r) "PROPPATCH"); [destruct (pf r)|]; intros H; inversion H; auto. }
   destruct (String.eqb (meth r) "MKCOL" && negb (String.eqb (h_ctype r) "")); [intros H; inversion H; auto|].
   destruct (abs_path root (rpath r)); [|intros H; inversion H; auto].
   destruct (String.eqb (meth r) "OPTIONS"); [discriminate|].
@@ -427,7 +428,8 @@ Proof.
     destruct (exists_ (geto sb (hp root s))); [reflexivity|].
     destruct (negb (is_dir (geto sb (parent (hp root s))))); [reflexivity|].
     destruct (seto sb (hp root s) (Dir [])); reflexivity. }
-  destruct (String.eqb (meth r) "COPY" || String.eqb (meth r) "MOVE"); [|reflexivity].
+  destruct (String.eqb (meth r) "COPY" || String.eqb (meth r) "MOVE").
+  2:{ destruct (String.eqb (meth r) "PROPPATCH"); [unfold do_proppatch; destruct (pf r)|]; reflexivity. }
   rewrite do_copy_move_headers.
   destruct (h_dest r) as [| |dst]; try reflexivity.
   destruct (parse_overwrite (h_overwrite r)) as [ow|]; [|reflexivity].
